@@ -1011,7 +1011,7 @@ fn run_c18(cfg: &Cfg, rep: &mut Report) {
                 let e2 = (0..2).map(|k| (b2[k] as f64 - v[k] as f64).abs()).fold(0.0, f64::max);
                 let e3 = (0..3).map(|k| (b3[k] as f64 - v[k] as f64).abs()).fold(0.0, f64::max);
                 let (sq, _) = bound("sqrt");
-                let rtol = sq.max(4e-7);
+                let rtol = sq.max(2e-6);
                 let in_range = (-180.0001..=180.0001).contains(&paz) && (-180.0001..=180.0001).contains(&saz) && (-90.0001..=90.0001).contains(&salt);
                 rep.worst("round_trip_err/r", (e2 / r2).max(e3 / r3), rt_tol, String::new);
                 if !(e2 <= rt_tol * r2 && e3 <= rt_tol * r3 && (pr as f64 - r2).abs() <= rtol * r2 && (sr as f64 - r3).abs() <= rtol * r3 && in_range) {
